@@ -326,7 +326,7 @@ def _plan(tier):
 
 def run(rep: Report):
     tier = rep.tier
-    opts = {"prove_timeout_ms": 10000, "fork_timeout_ms": 2000, "seed": rep.seed, "scenario_wall_s": 240 if tier == "quick" else 1200}
+    opts = {"prove_timeout_ms": 10000, "fork_timeout_ms": 2000, "seed": rep.seed, "scenario_wall_s": 900 if tier == "quick" else 1200}
     run_plan(rep, _plan(tier), SCENARIOS, opts)
     rep.bounds = {"drivers": "MonteCarlo, Canonical, HamiltonianCanonical, Isobaric, Isotension, GrandCanonical", "trials": "2 (quick) / 3: every accepted/rejected/not-attempted history", "result styles": "bool and truthy object for the criteria, truthy object for the move"}
     rep.assumptions = ["the bare move changes the system the way the shipped moves do (through context.atoms and the exchange bookkeeping attributes documented on ExchangeContext)"]
